@@ -404,7 +404,8 @@ Fixpoint interleave {A} (a b : list A) : list A :=
   | _, _ => []
   end.
 
-(* parse_assign + connect_wires_for_assign; ports of SDN_VERILOG_ASSIGNMENT_w: i = 0, o = 1, pin k = ordinal k *)
+(* parse_assign + connect_wires_for_assign; ports of SDN_VERILOG_ASSIGNMENT_w: i = 0, o = 1, pin k = ordinal k.
+   The wire lists are most significant first; pin k takes out_wires[-1-k] / in_wires[-1-k] (bit k from the low end) *)
 Definition assign_item (lhs rhs : datom) (acount : nat) (d : edef) : result edef :=
   let* (d1, kl) := var_inst lhs d in
   let* (d2, kr) := var_inst rhs d1 in
@@ -412,8 +413,8 @@ Definition assign_item (lhs rhs : datom) (acount : nat) (d : edef) : result edef
   let* ins := wires_from kr (atom_l rhs) (atom_r rhs) d2 in
   let w := Nat.min (length outs) (length ins) in
   let* (d3, ii) := add_inst {| ei_name := assign_name w acount; ei_ref := RAssign w; ei_params := []; ei_attrs := [] |} d2 in
-  connect_all (interleave (combine (firstn w outs) (map (POuter ii 1) (seq 0 w)))
-                          (combine (firstn w ins) (map (POuter ii 0) (seq 0 w)))) d3.
+  connect_all (interleave (combine (firstn w (rev outs)) (map (POuter ii 1) (seq 0 w)))
+                          (combine (firstn w (rev ins)) (map (POuter ii 0) (seq 0 w)))) d3.
 
 (* ---------- instances ---------- *)
 (* parse_port_map_single: .pname(e) on instance ii (of definition cur) whose reference is definition rk *)
